@@ -1105,20 +1105,26 @@ theorem kaRange_table_all : ∀ a ∈ kinds3, ∀ b ∈ kinds3, ∀ c ∈ kinds3
 
 /-- the `while dispatch("<=", (curr, hi))` loop of `ka_range` on Python numbers of any kind, without
     `dispatch`: exact comparison, `curr + step` as `dispatch("+")` computes it (floating point as soon as a
-    float is involved, then `simplify_type`) -/
-def numRangeLoop (hi step : Num) : Nat → Num → List Num → Except Err (List Num)
-  | 0, _, _ => .error .diverges
+    float is involved, then `simplify_type`), and the no-progress guard of fix efcc27a — `curr < curr + step`
+    compared exactly, FunctionArgError otherwise (`1e16 + 0.5 == 1e16`).  When the round bound is reached the
+    loop declines (`unmodelled "huge range"`): with the guard the Python loop always ends, so there is no
+    `diverges` answer. -/
+def numRangeLoop (hi step : Num) : Nat → Num → List Num → R (List Num)
+  | 0, _, _ => .error (.unmodelled "huge range")
   | f + 1, curr, acc =>
     if cmpLe curr hi then do
-      let nx ← binop .add curr step
+      let nx ← liftE (binop .add curr step)
+      if !cmpLt curr nx then raise .funArg else
       numRangeLoop hi step f nx (curr :: acc)
     else .ok acc.reverse
 
-/-- `ka_range` on Python numbers of any kind (with the model's iteration bound) -/
-def numKaRange (lo hi step : Num) : Except Err (List Num) :=
-  if !cmpLt (.int 0) step then .error .funArg
-  else if !cmpLe lo hi then .error .funArg
-  else numRangeLoop hi step (((hi.toRat - lo.toRat) / step.toRat).floor.toNat + 3) lo []
+/-- `ka_range` on Python numbers of any kind, with the model's two size refusals (nominal length beyond
+    `maxRange` before the loop; the loop's own round bound `kaRangeFuel`) -/
+def numKaRange (lo hi step : Num) : R (List Num) :=
+  if !cmpLt (.int 0) step then raise .funArg
+  else if !cmpLe lo hi then raise .funArg
+  else if ((hi.toRat - lo.toRat) / step.toRat).floor.toNat + 3 > maxRange then .error (.unmodelled "huge range")
+  else numRangeLoop hi step (kaRangeFuel lo hi step) lo []
 
 theorem rnum_add (n : Nat) (a b : Num) :
     rnum (fun nm as => dispatchV (n + 1) nm as []) "+" [a, b] = liftE (binop .add a b) := by
@@ -1127,54 +1133,66 @@ theorem rnum_add (n : Nat) (a b : Num) :
 
 theorem kaRangeLoop_num (n : Nat) (hi step : Num) (f : Nat) (c : Num) (acc : List Num) :
     kaRangeLoop (fun nm as => dispatchV (n + 1) nm as []) hi step f c (acc.map Val.num) =
-      match numRangeLoop hi step f c acc with
-      | .ok xs => .ok (.arr (xs.map Val.num))
-      | .error e => .error (.err e) := by
+      (numRangeLoop hi step f c acc).map (fun xs => .arr (xs.map Val.num)) := by
   induction f generalizing c acc with
   | zero => rfl
   | succ f ih =>
-    simp only [kaRangeLoop, numRangeLoop, rnum_le, bind, Except.bind, truthy_ite, rnum_add]
+    simp only [kaRangeLoop, numRangeLoop, rnum_le, rnum_lt, bind, Except.bind, truthy_ite, rnum_add]
     cases cmpLe c hi with
-    | false => simp only [Bool.false_eq_true, if_false, List.map_reverse]
+    | false => simp only [Bool.false_eq_true, if_false, List.map_reverse, Except.map]
     | true =>
       simp only [if_true]
       cases binop .add c step with
       | error e => rfl
-      | ok nx => exact ih nx (c :: acc)
+      | ok nx =>
+        simp only [liftE]
+        cases cmpLt c nx with
+        | false => rfl
+        | true => exact ih nx (c :: acc)
 
-/-- `range(lo, hi, step)` through `dispatch`, for operands of ANY kind, is `numKaRange` -/
-theorem dispatch_kaRange_num (n : Nat) (lo hi step : Num)
-    (hsz : ((hi.toRat - lo.toRat) / step.toRat).floor.toNat + 3 ≤ maxRange) :
+/-- `range(lo, hi, step)` through `dispatch`, for operands of ANY kind, is `numKaRange` (no side condition:
+    the size refusals are part of `numKaRange`) -/
+theorem dispatch_kaRange_num (n : Nat) (lo hi step : Num) :
     dispatchV (n + 2) "range" [.num lo, .num hi, .num step] [] =
-      match numKaRange lo hi step with
-      | .ok xs => .ok (.arr (xs.map Val.num))
-      | .error e => .error (.err e) := by
+      (numKaRange lo hi step).map (fun xs => .arr (xs.map Val.num)) := by
   have t := kaRange_table_all _ (numClass_mem lo) _ (numClass_mem hi) _ (numClass_mem step)
   rw [dispatchV_step (c := chP [tNum, tNum, tNum] _ .kaRange) (code := .kaRange) (by simpa [classOf] using t) rfl]
-  have hlt := rnum_cmp n .lt (.int 0) step
-  simp only [cmpOpName, Compare.cmpNum, Compare.b2n] at hlt
-  have hng : ¬ ((hi.toRat - lo.toRat) / step.toRat).floor.toNat + 3 > maxRange := Nat.not_lt.mpr hsz
   simp only [chP, coerceArgs_3 _ _ _ (.num lo) (.num hi) (.num step) rfl rfl rfl, BodyCode.run, bKaRange, bind, Except.bind,
-    hlt, rnum_le, truthy_ite, numKaRange]
+    rnum_lt, rnum_le, truthy_ite, numKaRange]
   cases cmpLt (.int 0) step with
   | false => rfl
   | true =>
     cases cmpLe lo hi with
     | false => rfl
     | true =>
-      simp only [Bool.not_true, Bool.false_eq_true, if_false, hng]
-      have hl := kaRangeLoop_num n hi step (((hi.toRat - lo.toRat) / step.toRat).floor.toNat + 3) lo []
-      simp only [List.map_nil] at hl
-      rw [hl]
-      cases numRangeLoop hi step _ lo [] <;> rfl
+      simp only [Bool.not_true, Bool.false_eq_true, if_false]
+      by_cases hng : ((hi.toRat - lo.toRat) / step.toRat).floor.toNat + 3 > maxRange
+      · simp only [hng, if_true]; rfl
+      · simp only [hng, if_false]
+        have hl := kaRangeLoop_num n hi step (kaRangeFuel lo hi step) lo []
+        simp only [List.map_nil] at hl
+        rw [hl]
+        cases hr : numRangeLoop hi step (kaRangeFuel lo hi step) lo [] with
+        | error e => rfl
+        | ok xs =>
+          simp only [Except.map]
+          rfl
 
 /-- **what the loop's result is**, as an inductive description: starting at `c`, while the current
     number does not exceed `hi` (exact comparison) it is listed and the next one is `curr + step` as Ka's
-    `+` computes it on the kinds at hand -/
+    `+` computes it on the kinds at hand — and is STRICTLY larger (the no-progress guard passed) -/
 inductive RangeTail (hi step : Num) : Num → List Num → Prop where
   | stop (c : Num) : cmpLe c hi = false → RangeTail hi step c []
-  | next (c nx : Num) (tail : List Num) : cmpLe c hi = true → binop .add c step = .ok nx →
+  | next (c nx : Num) (tail : List Num) : cmpLe c hi = true → binop .add c step = .ok nx → cmpLt c nx = true →
       RangeTail hi step nx tail → RangeTail hi step c (c :: tail)
+
+/-- **how the loop can fail with FunctionArgError**: starting at `c`, after zero or more rounds that advanced,
+    a current number not exceeding `hi` is reached whose sum with `step` is NOT larger than itself (compared
+    exactly) — `1e16 + 0.5 == 1e16` -/
+inductive RangeStuck (hi step : Num) : Num → Prop where
+  | here (c nx : Num) : cmpLe c hi = true → binop .add c step = .ok nx → cmpLt c nx = false → RangeStuck hi step c
+  | later (c nx : Num) : cmpLe c hi = true → binop .add c step = .ok nx → cmpLt c nx = true →
+      RangeStuck hi step nx → RangeStuck hi step c
 
 theorem numRangeLoop_spec (hi step : Num) (f : Nat) (c : Num) (acc xs : List Num)
     (h : numRangeLoop hi step f c acc = .ok xs) : ∃ tail, xs = acc.reverse ++ tail ∧ RangeTail hi step c tail := by
@@ -1189,11 +1207,99 @@ theorem numRangeLoop_spec (hi step : Num) (f : Nat) (c : Num) (acc xs : List Num
     | true =>
       simp only [hc, if_true, bind, Except.bind] at h
       cases hb : binop .add c step with
-      | error e => simp [hb] at h
+      | error e => simp [hb, liftE] at h
       | ok nx =>
-        simp only [hb] at h
-        obtain ⟨tail, hx, ht⟩ := ih nx (c :: acc) h
-        exact ⟨c :: tail, by simp [hx], .next c nx tail hc hb ht⟩
+        simp only [hb, liftE] at h
+        cases hg : cmpLt c nx with
+        | false => simp [hg, raise] at h
+        | true =>
+          simp only [hg, Bool.not_true, Bool.false_eq_true, if_false] at h
+          obtain ⟨tail, hx, ht⟩ := ih nx (c :: acc) h
+          exact ⟨c :: tail, by simp [hx], .next c nx tail hc hb hg ht⟩
+
+/-- `+` on two numbers fails with OverflowError only (a float result, or an operand converted to float, out of range) -/
+theorem binop_add_error (a b : Num) (e : Err) (h : binop .add a b = .error e) : e = .overflow := by
+  have hs : ∀ r : Num, simplify r = .error e → e = .overflow := by
+    intro r hr
+    cases r with
+    | int k => simp [simplify] at hr
+    | frac q => rw [simplify_frac] at hr; cases hr
+    | flt x =>
+      simp only [simplify] at hr
+      split at hr
+      · split at hr <;> cases hr
+      · split at hr
+        · cases hr
+        · cases hr; rfl
+  have hf : ∀ x : Float, fin x = .error e → e = .overflow := by
+    intro x hx
+    simp only [fin] at hx
+    split at hx
+    · cases hx
+    · cases hx; rfl
+  have ht : ∀ x : Num, x.toFloat = .error e → e = .overflow := by
+    intro x hx
+    cases x with
+    | int k => simp only [Num.toFloat] at hx; split at hx <;> cases hx; rfl
+    | frac q => simp only [Num.toFloat] at hx; split at hx <;> cases hx; rfl
+    | flt y => cases hx
+  have hfl : ∀ x y : Num, (do let x' ← x.toFloat; let y' ← y.toFloat; fin (x' + y') : Except Err Num) >>= simplify = .error e →
+      e = .overflow := by
+    intro x y hxy
+    cases hx : x.toFloat with
+    | error e1 => rw [hx] at hxy; cases hxy; exact ht x hx
+    | ok x' =>
+      cases hy : y.toFloat with
+      | error e1 => rw [hx, hy] at hxy; cases hxy; exact ht y hy
+      | ok y' =>
+        rw [hx, hy] at hxy
+        simp only [bind, Except.bind] at hxy
+        cases hfx : fin (x' + y') with
+        | error e1 => rw [hfx] at hxy; cases hxy; exact hf _ hfx
+        | ok r => rw [hfx] at hxy; exact hs r hxy
+  cases a with
+  | int x =>
+    cases b with
+    | int y => simp [binop, pyLin, bind, Except.bind, simplify] at h
+    | frac y => simp [binop, pyLin, bind, Except.bind, simplify_frac] at h
+    | flt y => exact hfl (.int x) (.flt y) (by simpa only [binop, pyLin] using h)
+  | frac x =>
+    cases b with
+    | int y => simp [binop, pyLin, bind, Except.bind, simplify_frac] at h
+    | frac y => simp [binop, pyLin, bind, Except.bind, simplify_frac] at h
+    | flt y => exact hfl (.frac x) (.flt y) (by simpa only [binop, pyLin] using h)
+  | flt x => exact hfl (.flt x) b (by cases b <;> simpa only [binop, pyLin] using h)
+
+/-- the loop's failures, classified: OverflowError out of a `+`, FunctionArgError exactly when a round made no
+    progress, or the model's refusal at its round bound — never `diverges` -/
+theorem numRangeLoop_error (hi step : Num) (f : Nat) (c : Num) (acc : List Num) (e : EvalErr)
+    (h : numRangeLoop hi step f c acc = .error e) :
+    e = .err .overflow ∨ (e = .err .funArg ∧ RangeStuck hi step c) ∨ e = .unmodelled "huge range" := by
+  induction f generalizing c acc with
+  | zero => simp only [numRangeLoop, Except.error.injEq] at h; exact Or.inr (Or.inr h.symm)
+  | succ f ih =>
+    simp only [numRangeLoop] at h
+    cases hc : cmpLe c hi with
+    | false => simp [hc] at h
+    | true =>
+      simp only [hc, if_true, bind, Except.bind] at h
+      cases hb : binop .add c step with
+      | error e1 =>
+        simp only [hb, liftE, Except.error.injEq] at h
+        rw [binop_add_error c step e1 hb] at h
+        exact Or.inl h.symm
+      | ok nx =>
+        simp only [hb, liftE] at h
+        cases hg : cmpLt c nx with
+        | false =>
+          simp only [hg, Bool.not_false, if_true, raise, Except.error.injEq] at h
+          exact Or.inr (Or.inl ⟨h.symm, .here c nx hc hb hg⟩)
+        | true =>
+          simp only [hg, Bool.not_true, Bool.false_eq_true, if_false] at h
+          rcases ih nx (c :: acc) h with h1 | ⟨h1, h2⟩ | h1
+          · exact Or.inl h1
+          · exact Or.inr (Or.inl ⟨h1, .later c nx hc hb hg h2⟩)
+          · exact Or.inr (Or.inr h1)
 
 /-- the description determines the list -/
 theorem RangeTail.unique {hi step c : Num} {t1 t2 : List Num} (h1 : RangeTail hi step c t1) (h2 : RangeTail hi step c t2) :
@@ -1202,11 +1308,11 @@ theorem RangeTail.unique {hi step c : Num} {t1 t2 : List Num} (h1 : RangeTail hi
   | stop c hc =>
     cases h2 with
     | stop _ _ => rfl
-    | next _ _ _ hc' _ _ => rw [hc] at hc'; cases hc'
-  | next c nx tail hc hb _ ih =>
+    | next _ _ _ hc' _ _ _ => rw [hc] at hc'; cases hc'
+  | next c nx tail hc hb _ _ ih =>
     cases h2 with
     | stop _ hc' => rw [hc] at hc'; cases hc'
-    | next _ nx' tail' _ hb' ht' =>
+    | next _ nx' tail' _ hb' _ ht' =>
       rw [hb] at hb'
       cases hb'
       rw [ih ht']
@@ -1232,7 +1338,7 @@ theorem RangeTail.rangeLoop {hi step c : Num} {xs : List Num} (h : RangeTail hi 
   | stop c hc =>
     have : ¬ c.toRat ≤ hi.toRat := by simpa [cmpLe] using hc
     simp [Arr.rangeLoop, this]
-  | next c nx tail hc hb _ ih =>
+  | next c nx tail hc hb _ _ ih =>
     have hle : c.toRat ≤ hi.toRat := by simpa [cmpLe] using hc
     have hnx := hex c List.mem_cons_self nx hb
     rw [List.length_cons, Arr.rangeLoop]
@@ -1293,11 +1399,90 @@ theorem RangeTail.all_exact {hi step c : Num} {xs : List Num} (h : RangeTail hi 
     (hc : c.isExact = true) (hs : step.isExact = true) : ∀ a ∈ xs, a.isExact = true := by
   induction h with
   | stop c _ => intro a ha; simp at ha
-  | next c nx tail _ hb _ ih =>
+  | next c nx tail _ hb _ _ ih =>
     intro a ha
     rcases List.mem_cons.mp ha with rfl | ha'
     · exact hc
     · exact ih (binop_add_isExact _ _ _ hc hs hb) a ha'
+
+/-- `+` on two exact numbers never fails -/
+theorem binop_add_exact_ok (a b : Num) (ha : a.isExact = true) (hb : b.isExact = true) : ∃ r, binop .add a b = .ok r := by
+  cases h : binop .add a b with
+  | ok r => exact ⟨r, rfl⟩
+  | error e =>
+    exfalso
+    cases a with
+    | flt x => simp [isExact] at ha
+    | int x =>
+      cases b with
+      | flt y => simp [isExact] at hb
+      | int y => simp [binop, pyLin, bind, Except.bind, simplify] at h
+      | frac y => simp [binop, pyLin, bind, Except.bind, simplify_frac] at h
+    | frac x =>
+      cases b with
+      | flt y => simp [isExact] at hb
+      | int y => simp [binop, pyLin, bind, Except.bind, simplify_frac] at h
+      | frac y => simp [binop, pyLin, bind, Except.bind, simplify_frac] at h
+
+/-- with an exact start and an exact positive step every round advances: the no-progress failure of
+    `ka_range` needs a float -/
+theorem RangeStuck.not_exact {hi step c : Num} (h : RangeStuck hi step c)
+    (hc : c.isExact = true) (hs : step.isExact = true) (hp : cmpLt (.int 0) step = true) : False := by
+  have hp' : (0 : Rat) < step.toRat := by simpa [cmpLt, toRat] using hp
+  induction h with
+  | here c nx _ hb hg =>
+    have hv := binop_add_exact c step nx hc hs hb
+    have : c.toRat < nx.toRat := by rw [hv]; linarith
+    simp [cmpLt, this] at hg
+  | later c nx _ hb _ _ ih => exact ih (binop_add_isExact _ _ _ hc hs hb)
+
+/-- on an exact start and an exact positive step, a round bound that suffices for the exact fragment's loop
+    suffices for the loop on Python numbers, which then returns a list -/
+theorem numRangeLoop_exact_ok (hi step : Num) (hs : step.isExact = true) (hp : (0 : Rat) < step.toRat)
+    (f : Nat) (c : Num) (hc : c.isExact = true) (acc : List Num) (racc ys : List Rat)
+    (h : Arr.rangeLoop hi.toRat step.toRat f c.toRat racc = some ys) : ∃ xs, numRangeLoop hi step f c acc = .ok xs := by
+  induction f generalizing c acc racc with
+  | zero => simp [Arr.rangeLoop] at h
+  | succ f ih =>
+    rw [Arr.rangeLoop] at h
+    simp only [numRangeLoop]
+    by_cases hle : c.toRat ≤ hi.toRat
+    · have hle' : cmpLe c hi = true := by simpa [cmpLe] using hle
+      obtain ⟨nx, hb⟩ := binop_add_exact_ok c step hc hs
+      have hv := binop_add_exact c step nx hc hs hb
+      have hg : cmpLt c nx = true := by
+        have : c.toRat < nx.toRat := by rw [hv]; linarith
+        simpa [cmpLt] using this
+      simp only [hle, if_true, ← hv] at h
+      simp only [hle', if_true, hb, liftE, bind, Except.bind, hg, Bool.not_true, Bool.false_eq_true, if_false]
+      exact ih nx (binop_add_isExact _ _ _ hc hs hb) _ _ h
+    · have hle' : cmpLe c hi = false := by simpa [cmpLe] using hle
+      simp only [hle', Bool.false_eq_true, if_false]
+      exact ⟨_, rfl⟩
+
+/-- the round bound `bKaRange` supplies is at least the exact fragment's whenever the nominal length is within `maxRange` -/
+theorem kaRangeFuel_ge (lo hi step : Num) (hsz : ((hi.toRat - lo.toRat) / step.toRat).floor.toNat + 3 ≤ maxRange) :
+    ((hi.toRat - lo.toRat) / step.toRat).floor.toNat + 2 ≤ kaRangeFuel lo hi step := by
+  unfold kaRangeFuel
+  split <;> omega
+
+/-- **exact start and step, within the size bound: `range` returns a list** (the bound of the model is not reached,
+    the no-progress guard does not fire), whatever kind `hi` has -/
+theorem numKaRange_exact_ok (lo hi step : Num) (hl : lo.isExact = true) (hs : step.isExact = true)
+    (hp : cmpLt (.int 0) step = true) (hle : cmpLe lo hi = true)
+    (hsz : ((hi.toRat - lo.toRat) / step.toRat).floor.toNat + 3 ≤ maxRange) : ∃ xs, numKaRange lo hi step = .ok xs := by
+  have hp' : (0 : Rat) < step.toRat := by simpa [cmpLt, toRat] using hp
+  have hle' : lo.toRat ≤ hi.toRat := by simpa [cmpLe] using hle
+  have hng : ¬ ((hi.toRat - lo.toRat) / step.toRat).floor.toNat + 3 > maxRange := Nat.not_lt.mpr hsz
+  have hk := C12_range_step lo.toRat hi.toRat step.toRat hp' hle'
+  unfold Arr.kaRange at hk
+  simp only [hp', hle', not_true_eq_false, if_false] at hk
+  simp only [numKaRange, hp, hle, Bool.not_true, Bool.false_eq_true, if_false, hng]
+  cases hr : Arr.rangeLoop hi.toRat step.toRat (((hi.toRat - lo.toRat) / step.toRat).floor.toNat + 2) lo.toRat [] with
+  | none => rw [hr] at hk; cases hk
+  | some L =>
+    exact numRangeLoop_exact_ok hi step hs hp' _ lo hl [] [] L
+      (rangeLoop_mono_le _ _ _ _ (kaRangeFuel_ge lo hi step hsz) _ _ _ hr)
 
 /-! ### aggregates on arrays of wrapped numbers (plain numbers; quantities of one dimension) -/
 
